@@ -77,6 +77,7 @@ def shards(tier):
     sh = [('fresh', i, sb, sc, mode) for i in range(n) for sb in (0, 1) for sc in (0, 1) for mode in MODES]
     sh += [('resume', i, k, 8) for i in range(n) for k in range(8)]
     sh += ST.shards()
+    sh.append(('processes', 0))
     return sh
 
 
@@ -230,7 +231,40 @@ def run_resume(shard, tier, acc):
     tree.rmtree(td)
 
 
+def run_processes(tier, acc):
+    """--limit N in one process against the unlimited run of ANOTHER process (different string-hash seeds), on a ruleset with repeated values."""
+    import subprocess
+    import sys
+    td = tree.scratch_tree()
+    R.write_ruleset(os.path.join(td, 'Rules', 'v'), D.dup_spec())
+
+    def cli(seed, extra):
+        env = dict(os.environ, PYTHONHASHSEED=seed)
+        r = subprocess.run([sys.executable, '-B', os.path.join(td, 'pcfg_guesser.py'), '-r', 'v'] + extra, stdin=subprocess.DEVNULL, capture_output=True, env=env, timeout=300)
+        for ext in ('.sav', '.omn'):
+            pth = os.path.join(td, 'default_run' + ext)
+            if os.path.exists(pth):
+                os.unlink(pth)
+        return r.stdout.decode('utf-8', 'replace').split('\n')[:-1]
+    full = cli('1', [])
+    acc.evals += 1
+    total = len(full)
+    for seed in ('2', '3', '4'):
+        for N in sorted({2, 5, 9, total // 2, total - 1, total}):
+            if N < 1:
+                continue
+            got = cli(seed, ['-n', str(N)])
+            acc.evals += 1
+            acc.nontrivial += 1
+            if got != full[:N]:
+                acc.fail({'kind': 'processes', 'N': N, 'seed': seed}, 'pcfg_guesser -n %d (process with PYTHONHASHSEED=%s) is not the first %d lines of the unlimited run of another process: %r vs %r'
+                         % (N, seed, N, got[-3:], full[:N][-3:]), 'limit-prefix-across-processes')
+    tree.rmtree(td)
+
+
 def run_shard(shard, tier, acc):
+    if shard[0] == 'processes':
+        return run_processes(tier, acc)
     if shard[0] == 'status':
         ST.run(shard, tier, acc)
     elif shard[0] == 'fresh':
@@ -246,6 +280,10 @@ def replay(case):
     tier = 'thorough'
     if case.get('layer') == 'status':
         return ST.replay(case)
+    if case.get('kind') == 'processes':
+        run_processes('quick', acc)
+        fs = [f for f in acc.failures if f['case'] == case]
+        return fs[0]['msg'] if fs else None
     if case['kind'] == 'fresh':
         run_fresh(('fresh', case['spec_index'], case['skip_brute'], case['all_lower'], case['mode']), tier, acc)
     else:
